@@ -190,6 +190,7 @@ func GetInfo() Task {
 }
 
 func (r *Raft) info() Info {
+	snapIndex, _ := r.snaps.latest()
 	var flrs map[uint64]Replication
 	if r.state == Leader {
 		flrs = make(map[uint64]Replication)
@@ -223,7 +224,7 @@ func (r *Raft) info() Info {
 		Term:          r.term,
 		State:         r.state,
 		Leader:        r.leader,
-		SnapshotIndex: r.snaps.index,
+		SnapshotIndex: snapIndex,
 		FirstLogIndex: r.log.PrevIndex() + 1,
 		LastLogIndex:  r.lastLogIndex,
 		LastLogTerm:   r.lastLogTerm,
